@@ -31,6 +31,11 @@ def concretise(c, rnd):
             rk = KINDS[(i + rnd.randrange(4)) % 4]
         if rk in ("circle",) and (b["x2"] - b["x1"]) != (b["y2"] - b["y1"]):
             rk = "ellipse"
+        if rk == "nested":
+            base = geom.ref_element(rnd.choice(["rect", "line"]), b, "h" + ids[i])
+            own = f'<rect id="{ids[i]}" surround="#h{ids[i]}"/>'
+            els.append(base + own if rnd.random() < 0.5 else own + base)
+            continue
         els.append(geom.ref_element(rk, b, ids[i]))
     refs = rnd.choice([" ", ", "]).join("#" + ids[i] for i in range(len(c["refs"])))
     m = f' margin="{margin_str(c["margin"])}"' if c["margin"] else ""
